@@ -91,7 +91,7 @@ fn menu(basis: &[u8], delta: &Delta, n_other: usize, b: usize, small: bool) -> V
     for v in [0u32, 1, 3] {
         m.push(Mut::BlockSize(v));
     }
-    for k in ["zero", "flip", "of_basis"] {
+    for k in ["zero", "flip:0", "flip:5", "flip:8", "flip:16", "flip:31", "of_basis"] {
         m.push(Mut::Checksum(k.into()));
     }
     m
@@ -188,9 +188,10 @@ fn apply(mu: &Mut, basis: &mut Vec<u8>, delta: &mut Delta, others: &[Vec<u8>], b
         Mut::Checksum(k) => {
             delta.checksum = match k.as_str() {
                 "zero" => StrongHash::zero(),
-                "flip" => {
+                f if f.starts_with("flip") => {
+                    let pos: usize = f.split(':').nth(1).and_then(|n| n.parse().ok()).unwrap_or(5);
                     let mut x = *delta.checksum.as_bytes();
-                    x[5] ^= 0x04;
+                    x[pos % 32] ^= 0x04;
                     StrongHash::from_bytes(x)
                 }
                 _ => StrongHash::compute(basis),
@@ -200,21 +201,92 @@ fn apply(mu: &Mut, basis: &mut Vec<u8>, delta: &mut Delta, others: &[Vec<u8>], b
     true
 }
 
+const SPIN_LIMIT: usize = 20_000;
+
 /// A basis that never serves bytes beyond its end and records what was asked of it.
+/// A reader polled again and again at end-of-file is a spinning caller: panic (caught → violation).
 struct Recorder<'a> {
     inner: Cursor<&'a [u8]>,
     max_req: u64,
+    zero_reads: usize,
 }
 impl Read for Recorder<'_> {
     fn read(&mut self, buf: &mut [u8]) -> std::io::Result<usize> {
         let pos = self.inner.position();
         self.max_req = self.max_req.max(pos.saturating_add(buf.len() as u64));
-        self.inner.read(buf)
+        let n = self.inner.read(buf)?;
+        if n == 0 && !buf.is_empty() {
+            self.zero_reads += 1;
+            if self.zero_reads > SPIN_LIMIT {
+                panic!("SPIN: basis read at end-of-file {SPIN_LIMIT} times in a row");
+            }
+        } else {
+            self.zero_reads = 0;
+        }
+        Ok(n)
     }
 }
 impl Seek for Recorder<'_> {
     fn seek(&mut self, p: SeekFrom) -> std::io::Result<u64> {
         self.inner.seek(p)
+    }
+}
+
+struct ARecorder<'a> {
+    inner: Cursor<&'a [u8]>,
+    zero_reads: usize,
+}
+impl tokio::io::AsyncRead for ARecorder<'_> {
+    fn poll_read(mut self: std::pin::Pin<&mut Self>, cx: &mut std::task::Context<'_>, buf: &mut tokio::io::ReadBuf<'_>) -> std::task::Poll<std::io::Result<()>> {
+        let before = buf.filled().len();
+        let want = buf.remaining();
+        let r = std::pin::Pin::new(&mut self.inner).poll_read(cx, buf);
+        if buf.filled().len() == before && want > 0 {
+            self.zero_reads += 1;
+            if self.zero_reads > SPIN_LIMIT {
+                panic!("SPIN: basis read at end-of-file {SPIN_LIMIT} times in a row");
+            }
+        } else {
+            self.zero_reads = 0;
+        }
+        r
+    }
+}
+impl tokio::io::AsyncSeek for ARecorder<'_> {
+    fn start_seek(mut self: std::pin::Pin<&mut Self>, p: SeekFrom) -> std::io::Result<()> {
+        std::pin::Pin::new(&mut self.inner).start_seek(p)
+    }
+    fn poll_complete(mut self: std::pin::Pin<&mut Self>, cx: &mut std::task::Context<'_>) -> std::task::Poll<std::io::Result<u64>> {
+        std::pin::Pin::new(&mut self.inner).poll_complete(cx)
+    }
+}
+
+/// Output sink that accepts at most `max` bytes per write call (0 = unlimited).
+struct ShortW {
+    out: Vec<u8>,
+    max: usize,
+}
+impl std::io::Write for ShortW {
+    fn write(&mut self, buf: &[u8]) -> std::io::Result<usize> {
+        let n = if self.max == 0 { buf.len() } else { buf.len().min(self.max) };
+        self.out.extend_from_slice(&buf[..n]);
+        Ok(n)
+    }
+    fn flush(&mut self) -> std::io::Result<()> {
+        Ok(())
+    }
+}
+impl tokio::io::AsyncWrite for ShortW {
+    fn poll_write(mut self: std::pin::Pin<&mut Self>, _cx: &mut std::task::Context<'_>, buf: &[u8]) -> std::task::Poll<std::io::Result<usize>> {
+        let n = if self.max == 0 { buf.len() } else { buf.len().min(self.max) };
+        self.out.extend_from_slice(&buf[..n]);
+        std::task::Poll::Ready(Ok(n))
+    }
+    fn poll_flush(self: std::pin::Pin<&mut Self>, _cx: &mut std::task::Context<'_>) -> std::task::Poll<std::io::Result<()>> {
+        std::task::Poll::Ready(Ok(()))
+    }
+    fn poll_shutdown(self: std::pin::Pin<&mut Self>, _cx: &mut std::task::Context<'_>) -> std::task::Poll<std::io::Result<()>> {
+        std::task::Poll::Ready(Ok(()))
     }
 }
 
@@ -224,33 +296,38 @@ enum Engine {
     Async,
 }
 
-/// Outcome of one patch call: (reported Ok?, output bytes)
-fn patch_once(engine: Engine, basis: &[u8], delta: &Delta) -> Result<(bool, Vec<u8>), String> {
+/// Outcome of one patch call: (reported Ok?, output bytes). `short` = per-write byte limit of the sink.
+fn patch_once(engine: Engine, basis: &[u8], delta: &Delta, short: usize) -> Result<(bool, Vec<u8>), String> {
     catch(std::panic::AssertUnwindSafe(|| {
-        let mut out: Vec<u8> = Vec::new();
+        let mut sink = ShortW { out: Vec::new(), max: short };
         let ok = match engine {
             Engine::Sync => {
-                let rec = Recorder { inner: Cursor::new(basis), max_req: 0 };
-                CopiaSync::new().patch(rec, delta, &mut out).is_ok()
+                let rec = Recorder { inner: Cursor::new(basis), max_req: 0, zero_reads: 0 };
+                CopiaSync::new().patch(rec, delta, &mut sink).is_ok()
             }
-            Engine::Async => block_on(AsyncCopiaSync::new().patch(Cursor::new(basis), delta, &mut out)).is_ok(),
+            Engine::Async => block_on(AsyncCopiaSync::new().patch(ARecorder { inner: Cursor::new(basis), zero_reads: 0 }, delta, &mut sink)).is_ok(),
         };
-        (ok, out)
+        (ok, sink.out)
     }))
 }
 
-fn judge(engine: Engine, basis: &[u8], delta: &Delta) -> Option<(&'static str, String)> {
-    match patch_once(engine, basis, delta) {
+fn judge_sink(engine: Engine, basis: &[u8], delta: &Delta, short: usize) -> Option<(&'static str, String)> {
+    match patch_once(engine, basis, delta, short) {
+        Err(p) if p.starts_with("SPIN") => Some(("hang", format!("{engine:?} patch spins at end of basis: {p}"))),
         Err(p) => Some(("panic", format!("{engine:?} patch panicked: {p}"))),
         Ok((true, out)) => {
             if StrongHash::compute(&out) != delta.checksum {
-                Some(("ok_on_wrong_bytes", format!("{engine:?} patch returned Ok but BLAKE3(output) != delta.checksum ({} bytes written, source_size {})", out.len(), delta.source_size)))
+                Some(("ok_on_wrong_bytes", format!("{engine:?} patch returned Ok but BLAKE3(output) != delta.checksum ({} bytes reached the sink{}, source_size {})", out.len(), if short > 0 { format!(" accepting <= {short} bytes per write") } else { String::new() }, delta.source_size)))
             } else {
                 None
             }
         }
         Ok((false, _)) => None,
     }
+}
+
+fn judge(engine: Engine, basis: &[u8], delta: &Delta) -> Option<(&'static str, String)> {
+    judge_sink(engine, basis, delta, 0)
 }
 
 #[derive(Clone)]
@@ -298,7 +375,18 @@ fn chunk_bases(seed: u64) -> Vec<Base> {
         .collect()
 }
 
+fn big_literal_base(seed: u64) -> Base {
+    // one literal run of 3 MiB: larger than what an async file accepts per write call
+    let basis = junk(seed, 91, 1000);
+    let source = junk(seed, 92, 3 << 20);
+    let delta = make_delta(&basis, &source, 512);
+    Base { desc: json!({"level":"big_literal"}), basis, delta, b: 512, small: false }
+}
+
 fn base_from_desc(d: &Value, seed: u64) -> Base {
+    if d["level"] == "big_literal" {
+        return big_literal_base(seed);
+    }
     if d["level"] == "small" {
         let basis = unhex(d["basis"].as_str().unwrap_or(""));
         let source = unhex(d["source"].as_str().unwrap_or(""));
@@ -375,23 +463,17 @@ fn spawn_child(base: &Base, muts: &[&Mut], engine: Engine, seed: u64) -> Option<
 // ───────────── CLI ─────────────
 
 fn cli_patch(basis: &[u8], delta: &Delta, sc: &Scratch, tag: usize) -> (Option<i32>, Option<i32>, String, Option<Vec<u8>>) {
-    use std::os::unix::process::{CommandExt, ExitStatusExt};
     let bp = sc.path(&format!("b{tag}"));
     let dp = sc.path(&format!("d{tag}"));
     let op = sc.path(&format!("o{tag}"));
     let _ = std::fs::write(&bp, basis);
     let _ = std::fs::write(&dp, bincode::serialize(delta).unwrap_or_default());
-    let mut cmd = std::process::Command::new(cli_bin());
-    cmd.arg("patch").arg(&bp).arg(&dp).arg("-o").arg(&op).env("RUST_LOG", "off").env("MALLOC_ARENA_MAX", "1").env("TOKIO_WORKER_THREADS", "2");
-    unsafe {
-        cmd.pre_exec(|| {
-            let lim = libc::rlimit { rlim_cur: 1 << 30, rlim_max: 1 << 30 };
-            libc::setrlimit(libc::RLIMIT_AS, &lim);
-            Ok(())
-        });
+    let args: Vec<std::ffi::OsString> = vec!["patch".into(), bp.into(), dp.into(), "-o".into(), op.clone().into()];
+    let (code, sig, timed_out, err) = run_limited(&args, 20);
+    if timed_out {
+        return (None, Some(-1), err, None);
     }
-    let o = cmd.output().unwrap_or_else(|e| machinery_error(format!("spawn copia patch: {e}")));
-    (o.status.code(), o.status.signal(), String::from_utf8_lossy(&o.stderr).into_owned(), std::fs::read(&op).ok())
+    (code, sig, err, std::fs::read(&op).ok())
 }
 
 fn cli_part(bases: &[Base], evals: &AtomicU64) -> Vec<Violation> {
@@ -410,7 +492,8 @@ fn cli_part(bases: &[Base], evals: &AtomicU64) -> Vec<Violation> {
             let sc = Scratch::new("c05cli");
             let m = menu(&base.basis, &base.delta, 0, base.b, false);
             let mut out = Vec::new();
-            let mut jobs: Vec<Vec<&Mut>> = m.iter().map(|x| vec![x]).collect();
+            let mut jobs: Vec<Vec<&Mut>> = vec![vec![]];
+            jobs.extend(m.iter().map(|x| vec![x]));
             // the one pair class that passes validation with a huge length
             let bsmax = Mut::BasisSize("max".into());
             for x in &m {
@@ -423,7 +506,11 @@ fn cli_part(bases: &[Base], evals: &AtomicU64) -> Vec<Violation> {
                 evals.fetch_add(1, Ordering::Relaxed);
                 let (code, sig, err, outb) = cli_patch(&basis, &delta, &sc, ti);
                 let detail = json!({"base": base.desc, "muts": muts, "cli": true});
-                let blk = matches!(muts[0], Mut::BlockSize(_));
+                let blk = matches!(muts.first(), Some(Mut::BlockSize(_)));
+                if sig == Some(-1) {
+                    out.push(Violation::new("cli_hang", format!("`copia patch` did not finish within 20 s (mutations {muts:?})"), detail));
+                    continue;
+                }
                 if let Some(s) = sig {
                     let class = if blk { "block_size_assert" } else if is_huge(&delta) { "huge_copy_len" } else { "other" };
                     out.push(Violation::new("cli_crash", format!("`copia patch` killed by signal {s} (mutations {muts:?}): {}", err.lines().last().unwrap_or("")), detail).with("class", json!(class)));
@@ -467,7 +554,7 @@ pub fn run(ctx: &Ctx) -> ! {
             vs.extend(spawn_child(&base, &refs, e, seed));
         } else if let Some((basis, delta)) = run_muts(&base, &refs, &others) {
             let e = if d["engine"] == "Async" { Engine::Async } else { Engine::Sync };
-            if let Some((k, m)) = judge(e, &basis, &delta) {
+            if let Some((k, m)) = judge_sink(e, &basis, &delta, d["short"].as_u64().unwrap_or(0) as usize) {
                 vs.push(Violation::new(k, m, d.clone()));
             }
         }
@@ -499,6 +586,29 @@ pub fn run(ctx: &Ctx) -> ! {
             let m = menu(&base.basis, &base.delta, if base.small { others.len() } else { 0 }, base.b, base.small);
             let mut out: Vec<Violation> = Vec::new();
             let do_pairs = thorough || !base.small || (base.basis.len() <= 2 && bi % 3 == 0);
+            let mut out2: Vec<Violation> = Vec::new();
+            // short-writing sinks: the unmutated pair and every single mutation
+            for short in [1usize, 5] {
+                let mut jobs: Vec<Vec<&Mut>> = vec![vec![]];
+                jobs.extend(m.iter().map(|x| vec![x]));
+                for muts in jobs {
+                    let Some((basis, delta)) = run_muts(base, &muts, &others) else { continue };
+                    if is_huge(&delta) && delta.validate().is_ok() {
+                        continue;
+                    }
+                    for e in [Engine::Sync, Engine::Async] {
+                        evals.fetch_add(1, Ordering::Relaxed);
+                        let r = judge_sink(e, &basis, &delta, short);
+                        // the unmutated pair must also succeed
+                        let r = if r.is_none() && muts.is_empty() && !matches!(patch_once(e, &basis, &delta, short), Ok((true, _))) { Some(("valid_patch_fails", format!("{e:?} patch of the unmutated pair fails with a sink accepting <= {short} bytes per write"))) } else { r };
+                        if let Some((k, msg)) = r {
+                            if out2.len() < 3 {
+                                out2.push(Violation::new(k, format!("{msg}; mutations {muts:?}"), json!({"base": base.desc, "muts": muts, "engine": format!("{e:?}"), "short": short})));
+                            }
+                        }
+                    }
+                }
+            }
             let mut eval = |muts: &[&Mut]| {
                 let Some((basis, delta)) = run_muts(base, muts, &others) else { return };
                 if is_huge(&delta) && delta.validate().is_ok() {
@@ -518,7 +628,7 @@ pub fn run(ctx: &Ctx) -> ! {
                         None => {}
                     }
                 }
-                if let Ok((true, _)) = patch_once(Engine::Sync, &basis, &delta) {
+                if let Ok((true, _)) = patch_once(Engine::Sync, &basis, &delta, 0) {
                     ok_count.fetch_add(1, Ordering::Relaxed);
                 }
             };
@@ -532,6 +642,7 @@ pub fn run(ctx: &Ctx) -> ! {
                     }
                 }
             }
+            out.extend(out2);
             out
         })
         .collect();
@@ -559,7 +670,9 @@ pub fn run(ctx: &Ctx) -> ! {
         .collect();
     violations.extend(hv);
     let cli_before = evals.load(Ordering::Relaxed);
-    violations.extend(cli_part(&cb, &evals));
+    let mut cli_bases = cb.clone();
+    cli_bases.push(big_literal_base(seed));
+    violations.extend(cli_part(&cli_bases, &evals));
     let cli_runs = evals.load(Ordering::Relaxed) - cli_before;
     // keep the list readable: one violation per (kind, class, engine/cli)
     let mut seen: std::collections::HashMap<String, usize> = Default::default();
